@@ -5,7 +5,10 @@ PID = 'C16'
 
 
 def items():
-    return usage.scenarios() + [s for s in verdicts.SCENARIOS if PID in s.props]
+    from contracts import encryption, keymgmt
+    # "decryption finds the addressed subkey", "the produced ... session-key packet names exactly the key that was used"
+    other = [s for s in encryption.scenarios() + keymgmt.scenarios() if PID in s.props]
+    return usage.scenarios() + [s for s in verdicts.SCENARIOS if PID in s.props] + other
 
 
 def run(tier='quick', seed=0, only=None):
